@@ -65,7 +65,7 @@ def anyof_rule(table):
             # hoist in front of the enclosing statement; any_of must be the first thing that statement evaluates
             k = max(s.rfind(';', 0, m.start()), s.rfind('{', 0, m.start()), s.rfind('}', 0, m.start())) + 1
             lead = s[k:m.start()]
-            if not re.match(r'\s*(if\s*\(|bool\s+\w+\s*=)\s*$', lead): raise L.ExtractError('any_of: unsupported context: ' + lead)
+            if not re.match(r'\s*(if\s*\(|(?:const\s+)?bool\s+\w+\s*=|return)\s*$', lead): raise L.ExtractError('any_of: unsupported context: ' + lead)
             s = s[:k] + '\n' + loop + lead + var + s[p1 + 1:]
             n += 1; lw.fire('any_of')
         return s
